@@ -1,7 +1,7 @@
 package blockstore
 
 // Bounded stand-in for property C01 (labelled bounded; never counted as proved):
-// every sequence of 4 operations (thorough: 5) over put / putmany / delete on four
+// every sequence of 3 operations (thorough: 4) over put / putmany / delete on five
 // blocks - two of which are the CIDv0 and CIDv1-raw... forms of the same multihash, one
 // is an identity-hash block - is run against NewIdStore(NewBlockstore(MapDatastore))
 // with and without write-through, and against a map from multihash to bytes; after
@@ -45,7 +45,10 @@ func TestVerifBoundedC01MapModel(t *testing.T) {
 	}
 	idh, _ := mh.Sum([]byte("inline"), mh.IDENTITY, -1)
 	idBlock, _ := blocks.NewBlockWithCid([]byte("inline"), cid.NewCidV1(cid.Raw, idh))
-	blks := []blocks.Block{mk("alpha", 0, 0), mk("alpha", 1, cid.Raw), mk("beta", 1, cid.DagProtobuf), idBlock}
+	idh0, _ := mh.Sum([]byte{}, mh.IDENTITY, -1)
+	idEmpty, _ := blocks.NewBlockWithCid([]byte{}, cid.NewCidV1(cid.Raw, idh0))
+	blks := []blocks.Block{mk("alpha", 0, 0), mk("alpha", 1, cid.Raw), mk("beta", 1, cid.DagProtobuf), idBlock, idEmpty}
+	isID := func(b blocks.Block) bool { return b == idBlock || b == idEmpty }
 	type op struct {
 		kind string
 		idx  []int
@@ -54,10 +57,10 @@ func TestVerifBoundedC01MapModel(t *testing.T) {
 	for i := range blks {
 		ops = append(ops, op{"put", []int{i}}, op{"del", []int{i}})
 	}
-	ops = append(ops, op{"putmany", []int{0, 2}}, op{"putmany", []int{1, 3, 2}}, op{"putmany", []int{}})
-	seqLen := 4
+	ops = append(ops, op{"putmany", []int{0, 2}}, op{"putmany", []int{1, 3, 2}}, op{"putmany", []int{}}, op{"putmany", []int{3}}, op{"putmany", []int{4}})
+	seqLen := 3
 	if os.Getenv("VERIF_TIER") == "thorough" {
-		seqLen = 5
+		seqLen = 4
 	}
 	total := 1
 	for i := 0; i < seqLen; i++ {
@@ -79,7 +82,7 @@ func TestVerifBoundedC01MapModel(t *testing.T) {
 				switch o.kind {
 				case "put":
 					err = bs.Put(ctx, blks[o.idx[0]])
-					if blks[o.idx[0]] != idBlock {
+					if !isID(blks[o.idx[0]]) {
 						model[string(blks[o.idx[0]].Cid().Hash())] = blks[o.idx[0]].RawData()
 					}
 				case "del":
@@ -89,7 +92,7 @@ func TestVerifBoundedC01MapModel(t *testing.T) {
 					var bl []blocks.Block
 					for _, j := range o.idx {
 						bl = append(bl, blks[j])
-						if blks[j] != idBlock {
+						if !isID(blks[j]) {
 							model[string(blks[j].Cid().Hash())] = blks[j].RawData()
 						}
 					}
@@ -101,7 +104,7 @@ func TestVerifBoundedC01MapModel(t *testing.T) {
 				}
 				for _, b := range blks {
 					want, ok := model[string(b.Cid().Hash())]
-					if b == idBlock {
+					if isID(b) {
 						want, ok = b.RawData(), true
 					}
 					got, gerr := bs.Get(ctx, b.Cid())
